@@ -569,6 +569,10 @@ HTPcreate(filerec_t *file_rec, /* IN: File record to store info in */
     if (HTIregister_tag_ref(file_rec, dd_ptr) == FAIL)
         HGOTO_ERROR(DFE_INTERNAL, FAIL);
 
+    /* Keep Hnewref() ahead of every ref in use, whoever creates the DD */
+    if (ref > file_rec->maxref)
+        file_rec->maxref = ref;
+
     /* Get the atom to return */
     if ((ret_value = HAregister_atom(DDGROUP, dd_ptr)) == FAIL)
         HGOTO_ERROR(DFE_INTERNAL, FAIL);
